@@ -156,6 +156,8 @@ impl<F> FuturesUnorderedBounded<F> {
     #[inline]
     pub(crate) fn try_push_with<T>(&mut self, t: T, f: impl FnMut(T) -> F) -> Result<(), T> {
         let i = self.tasks.insert_with(t, f)?;
+        #[cfg(futures_buffered_verif)]
+        crate::verif::ev(crate::verif::kind::SLOT_INSERT, self.shared.verif_header(), i, 0);
         // safety: i is always within capacity
         unsafe {
             self.shared.push(i);
@@ -202,6 +204,8 @@ impl<F> FuturesUnorderedBounded<F> {
             count += 1;
             // if we are in a pending only loop - let's break out.
             if count > MAX {
+                #[cfg(futures_buffered_verif)]
+                crate::verif::ev(crate::verif::kind::BUDGET, self.shared.verif_header(), MAX, 0);
                 cx.waker().wake_by_ref();
                 return Poll::Pending;
             }
@@ -209,6 +213,8 @@ impl<F> FuturesUnorderedBounded<F> {
             match unsafe { self.shared.pop() } {
                 crate::waker_list::ReadySlot::None => return Poll::Pending,
                 crate::waker_list::ReadySlot::Inconsistent => {
+                    #[cfg(futures_buffered_verif)]
+                    crate::verif::ev(crate::verif::kind::INCONSISTENT_WAKE, self.shared.verif_header(), 0, 0);
                     cx.waker().wake_by_ref();
                     return Poll::Pending;
                 }
@@ -233,6 +239,8 @@ impl<F: Future> FuturesUnorderedBounded<F> {
         match self.poll_inner_no_remove(cx, F::poll) {
             Poll::Ready(Some((i, x))) => {
                 self.tasks.remove(i);
+                #[cfg(futures_buffered_verif)]
+                crate::verif::ev(crate::verif::kind::SLOT_VACATE, self.shared.verif_header(), i, 0);
                 Poll::Ready(Some((i, x)))
             }
             p => p,
